@@ -6,6 +6,8 @@
  *   new g <colors> <rgb8> <colon>      harness-owned driver (TickitTermBuilder.driver) that reports <colors> and records
  *                                      the (delta, final) pens of every chpen call; rgb8/colon are only read by the model
  *   new t                              table mode:  palette  prints xterm256[] as the C compiler sees it
+ *   renew ...                          same as `new ...` but inside the running history (the harness forks once per `new`):
+ *                                      the current terminal is destroyed and a fresh one is built
  *   setpen <pen> | chpen <pen>         <pen> = `-` or a comma separated list in attribute order, e.g.
  *                                      fg=200#0a0b0c,bg=-1,b=1,u=2,i=0,rv=1,strike=0,af=3,blink=1,sizepos=2
  *
@@ -167,6 +169,10 @@ static void obs_cached(void)
 
 static void op_new(int argc, char **argv)
 {
+  if(tt) {                      /* `renew`: a fresh terminal inside the same forked child */
+    tickit_term_unref(tt);
+    tt = NULL; gd = NULL; mode = 0; outn = 0;
+  }
   if(argc == 5 && strcmp(argv[1], "x") == 0) {
     int rgb8 = atoi(argv[2]), colon = atoi(argv[3]);
     int via_ctl = strcmp(argv[4], "ctl") == 0;
@@ -207,7 +213,7 @@ static void op_new(int argc, char **argv)
 
 static void engine_op(int argc, char **argv)
 {
-  if(argc >= 1 && strcmp(argv[0], "new") == 0) { op_new(argc, argv); return; }
+  if(argc >= 1 && (strcmp(argv[0], "new") == 0 || strcmp(argv[0], "renew") == 0)) { op_new(argc, argv); return; }
   if(mode == 't' && argc == 1 && strcmp(argv[0], "palette") == 0) {
     size_t n = sizeof xterm256 / sizeof xterm256[0];
     obs("%zu", n);
